@@ -22,6 +22,17 @@ def b(x):
     return '1' if x else '0'
 
 
+def report(ctx, kind, signature, detail, failing_input=None, property_fails=None, cap=12):
+    """ctx.report with a cap per signature, so that one frequent disagreement cannot crowd the others (and the
+    property failures found later, at pipeline level) out of the run's 200 recorded breaks; the total is kept in
+    ctx.extra['reports']."""
+    counts = ctx.extra.setdefault('reports', {})
+    key = '%s:%s' % (kind, signature)
+    counts[key] = counts.get(key, 0) + 1
+    if counts[key] <= cap:
+        ctx.report(kind, signature, detail, failing_input=failing_input, property_fails=property_fails)
+
+
 # ---------------------------------------------------------------- canonical forms (implementation side)
 
 def res_str(r):
